@@ -102,6 +102,8 @@ def split_commas(toks):
                 angle += 1
             elif t.v == ">" and depth == 0 and angle > 0:
                 angle -= 1
+            elif t.v == ">>" and depth == 0 and angle > 0:
+                angle = max(0, angle - 2)
             elif t.v == "," and depth == 0 and angle == 0:
                 out.append(cur)
                 cur = []
